@@ -61,6 +61,10 @@ fn std_size<S: Sch>(t: Tier, hiding: usize) -> Size {
         Size::uni(maxd, sup, hiding)
     } else if S::NAME == "pst13" {
         Size::mv(2, 2, hiding)
+    } else if S::NAME == "brakedown-rec" {
+        // 8 evaluations in 2 rows: message length 4 >= base length 3, one recursion level (A 4x1, Reed-Solomon
+        // 1 -> 2, B 2x1), codeword length 7 (the 4-variable shape, codeword 13, is used by C08/C10/C13 directly)
+        Size::mv(3, 1, hiding)
     } else {
         Size::mv(2, 1, hiding)
     }
@@ -188,7 +192,7 @@ fn c02_family<S: Sch>(t: Tier, seed: u64, out: &mut Vec<Entry>) {
         out.push(en);
     };
     let kzg_like = matches!(name, "marlin" | "sonic" | "pst13");
-    let lincode = matches!(name, "ligero-uni" | "ligero-ml" | "brakedown");
+    let lincode = matches!(name, "ligero-uni" | "ligero-ml" | "brakedown" | "brakedown-rec");
     // value perturbations
     add("1p1z-val", mk(vec![PolySpec::new(len)], 0), Mode::Single, Kind::Value(0), false);
     add("2p1z-val@1", mk(vec![PolySpec::new(2), PolySpec::new(2)], 0), Mode::Single, Kind::Value(1), false);
@@ -491,7 +495,7 @@ fn c06_family<S: Sch>(t: Tier, seed: u64, out: &mut Vec<Entry>) {
         add("const+d", mk(conc(2), 1), s_abk.clone(), Pert::Const, false);
         add("const+d-2z", mk(conc(2), 2), s_alias.clone(), Pert::Const, false);
         add("val+d-two-constants", mk(conc(1), 1), s_kk.clone(), Pert::Value(0), false);
-        if matches!(name, "hyrax" | "ligero-uni" | "ligero-ml" | "brakedown") {
+        if matches!(name, "hyrax" | "ligero-uni" | "ligero-ml" | "brakedown" | "brakedown-rec") {
             add("eval-shift", mk(conc(2), 1), LcShape { lcs: vec![vec![T::P(0), T::P(1)]], queries: vec![(0, 0)] }, Pert::EvalShift, false);
         }
         add("twin-val+d", mk(conc(2), 1), s_abk.clone(), Pert::Value(0), true);
@@ -531,6 +535,7 @@ fn catalogue_inner(prop: &str, t: Tier, seed: u64, out: &mut Vec<Entry>) {
             c01_family::<LigeroUni>(t, seed, out);
             c01_family::<LigeroMl>(t, seed, out);
             c01_family::<Brakedown>(t, seed, out);
+            c01_family::<BrakedownRec>(t, seed, out);
             let fi = vec!["kzg10::KZG10::{setup,commit,open,check,batch_check}", "MultilinearPC::{setup,trim,commit,open,check}"];
             for (id, len, hid, batch) in [("kzg10/1p", 3usize, None, false), ("kzg10/1p-hide1", 2, Some(1usize), false), ("kzg10/2p-batch", 2, None, true)] {
                 let mut en = e(id.to_string(), t, "coefficients, points, blinding", format!("max_degree 3, {} coefficients, hiding {:?}", len, hid), move || inherent::kzg10(3, len, hid, IPert::None, batch, seed)); en.funcs = fi.clone(); if t == Tier::Quick { en.lim.wall_s = 45.0; } out.push(en);
@@ -557,6 +562,7 @@ fn catalogue_inner(prop: &str, t: Tier, seed: u64, out: &mut Vec<Entry>) {
             c02_family::<LigeroUni>(t, seed, out);
             c02_family::<LigeroMl>(t, seed, out);
             c02_family::<Brakedown>(t, seed, out);
+            c02_family::<BrakedownRec>(t, seed, out);
             let fi = vec!["kzg10::KZG10::{setup,commit,open,check,batch_check}", "MultilinearPC::{setup,trim,commit,open,check}"];
             for (id, len, hid, batch, pert) in [("kzg10/1p-val", 3usize, None, false, IPert::Value), ("kzg10/1p-point", 3, None, false, IPert::Point), ("kzg10/1p-hide1-val", 2, Some(1usize), false, IPert::Value), ("kzg10/2p-batch-val", 2, None, true, IPert::Value), ("kzg10/twin", 2, None, false, IPert::Twin)] {
                 let mut en = e(id.to_string(), t, "coefficients, points, blinding, delta", format!("max_degree 3, {} coefficients, hiding {:?}", len, hid), move || inherent::kzg10(3, len, hid, pert, batch, seed)); en.funcs = fi.clone(); en.twin = pert == IPert::Twin; if t == Tier::Quick { en.lim.wall_s = 45.0; } out.push(en);
@@ -649,6 +655,7 @@ fn catalogue_inner(prop: &str, t: Tier, seed: u64, out: &mut Vec<Entry>) {
             fam!(LigeroUni, true);
             fam!(LigeroMl, true);
             fam!(Brakedown, true);
+            fam!(BrakedownRec, true);
             macro_rules! lin {
                 ($S:ty, $len:expr) => {{
                     let name = <$S as Sch>::NAME;
@@ -672,6 +679,7 @@ fn catalogue_inner(prop: &str, t: Tier, seed: u64, out: &mut Vec<Entry>) {
             lin!(LigeroUni, 4);
             lin!(LigeroMl, 1);
             lin!(Brakedown, 1);
+            lin!(BrakedownRec, 1);
             macro_rules! batchf {
                 ($S:ty) => {{
                     let mut c = Cfg::new(std_size::<$S>(t, 0), vec![PolySpec::new(2).conc()]);
@@ -721,6 +729,7 @@ fn catalogue_inner(prop: &str, t: Tier, seed: u64, out: &mut Vec<Entry>) {
             c05_family::<LigeroUni>(t, seed, out);
             c05_family::<LigeroMl>(t, seed, out);
             c05_family::<Brakedown>(t, seed, out);
+            c05_family::<BrakedownRec>(t, seed, out);
             c05_family::<Hyrax>(t, seed, out);
         }
         "C06" => {
@@ -881,9 +890,21 @@ fn catalogue_inner(prop: &str, t: Tier, seed: u64, out: &mut Vec<Entry>) {
                 en.funcs = f.clone();
                 out.push(en);
                 let c2 = c.clone();
-                let mut en = e("brakedown/deterministic-nv2".into(), t, "all evaluations", "2 variables; only shape and determinism (no reference encoder)".into(), move || c08::lincode_root::<Brakedown>(&c2, false));
+                let mut en = e("brakedown/root-nv2".into(), t, "all evaluations", "2 variables, default parameters (message below the base length: Reed-Solomon at 1, 2, ...)".into(), move || c08::lincode_root_code::<Brakedown>(&c2, 2));
                 en.funcs = f.clone();
                 out.push(en);
+                {
+                    let c = mk(Size::mv(4, 1, 0), vec![PolySpec::new(1)]);
+                    let mut en = e("brakedown-rec/root-nv4".into(), t, "all evaluations", "4 variables, hand-made parameters with base length 3: one recursion level (A 8x2, Reed-Solomon 2->4, B 4x1), codeword length 13".into(), move || c08::lincode_root_code::<BrakedownRec>(&c, 2));
+                    en.funcs = f.clone();
+                    out.push(en);
+                }
+                for nv in if quick { vec![] } else { vec![5usize] } {
+                    let c = mk(Size::mv(nv, 1, 0), vec![PolySpec::new(1)]);
+                    let mut en = e(format!("brakedown/root-nv{}", nv), t, "all evaluations", format!("{} variables, default parameters: the recursive (sparse-matrix) regime", nv), move || c08::lincode_root_code::<Brakedown>(&c, 2));
+                    en.funcs = f.clone();
+                    out.push(en);
+                }
             }
         }
         "C09" => {
@@ -979,6 +1000,16 @@ fn catalogue_inner(prop: &str, t: Tier, seed: u64, out: &mut Vec<Entry>) {
                 c.sym_points = false;
                 c.sym_ch = false;
                 add(format!("ligero-ml/c{}", which), format!("{:?} concrete polynomial/point, natural challenges", c.sz), Box::new(move || c10::ligero::<LigeroMl>(&c, which, false)));
+                // Brakedown: below the base length (default parameters, 2 variables) and in the recursive regime
+                // (hand-made parameters with base length 3, 4 variables: A 8x2, Reed-Solomon 2 -> 4, B 4x1)
+                let mut c = mkc(Size::mv(2, 1, 0), vec![PolySpec::new(1).conc()]);
+                c.sym_points = false;
+                c.sym_ch = false;
+                add(format!("brakedown/c{}", which), format!("{:?} default parameters, concrete polynomial/point, natural challenges", c.sz), Box::new(move || c10::brakedown::<Brakedown>(&c, which)));
+                let mut c = mkc(Size::mv(4, 1, 0), vec![PolySpec::new(1).conc()]);
+                c.sym_points = false;
+                c.sym_ch = false;
+                add(format!("brakedown-rec/c{}", which), format!("{:?} base length 3 (one recursion level), concrete polynomial/point, natural challenges", c.sz), Box::new(move || c10::brakedown::<BrakedownRec>(&c, which)));
             }
             for which in 0..=9usize {
                 add(format!("kzg10/check-c{}", which), "max_degree 3, 2 coefficients, hiding 1".into(), Box::new(move || c10::kzg10(which, false, seed)));
@@ -999,6 +1030,7 @@ fn catalogue_inner(prop: &str, t: Tier, seed: u64, out: &mut Vec<Entry>) {
             c11_family::<LigeroUni>(t, seed, out);
             c11_family::<LigeroMl>(t, seed, out);
             c11_family::<Brakedown>(t, seed, out);
+            c11_family::<BrakedownRec>(t, seed, out);
         }
         "C17" => {
             let f = vec!["kzg10::KZG10::{check_degree_is_too_large,check_hiding_bound,check_degrees_and_bounds}", "MarlinPST13::{check_degrees_and_bounds,check_hiding_bound}", "InnerProductArgPC::check_degrees_and_bounds", "HyraxPC::{setup,commit,open,check}", "PolynomialCommitment::{setup,trim,commit,batch_open,batch_check}", "MultilinearPC::{setup,commit,open,check}"];
@@ -1135,6 +1167,7 @@ fn catalogue_inner(prop: &str, t: Tier, seed: u64, out: &mut Vec<Entry>) {
             fam!(LigeroUni);
             fam!(LigeroMl);
             fam!(Brakedown);
+            fam!(BrakedownRec);
         }
         "C13" => {
             let f = vec!["linear_codes::utils::{calculate_t,get_indices_from_sponge,reed_solomon}", "LinearCodePCS::{commit,open,check}", "generate_proof", "LinearEncode::encode (UnivariateLigero, MultilinearLigero, MultilinearBrakedown)", "SprsMat::row_mul"];
@@ -1186,6 +1219,7 @@ fn catalogue_inner(prop: &str, t: Tier, seed: u64, out: &mut Vec<Entry>) {
             fewer!(LigeroUni, 4);
             fewer!(LigeroMl, 1);
             fewer!(Brakedown, 1);
+            fewer!(BrakedownRec, 1);
             for nv in if quick { vec![2usize, 4] } else { vec![2usize, 4, 6] } {
                 let mut sz = Size::mv(nv, 1, 0);
                 sz.ligero = (128, 2, true);
@@ -1224,6 +1258,37 @@ fn catalogue_inner(prop: &str, t: Tier, seed: u64, out: &mut Vec<Entry>) {
                 let c2 = c.clone();
                 let mut en = e(format!("brakedown/encode-linear-nv{}", nv), t, "scalars a, b and both messages x, y (sparse matrices concrete)", format!("{} variables, default parameters", nv), move || c13::encode_linear::<Brakedown, MultilinearBrakedown<crate::engine::sf::SF, RoMT, ML, RoColHash>>(&c2, m));
                 en.funcs = f.clone();
+                out.push(en);
+            }
+            // Brakedown in the regime where the recursion (sparse matrices) is actually used: row length >= base length 30
+            for nv in if quick { vec![5usize] } else { vec![5usize, 6, 7] } {
+                let c = mkc(Size::mv(nv, 1, 0), vec![PolySpec::new(1).conc()]);
+                let c2 = c.clone();
+                let mut en = e(format!("brakedown/encode-ref-nv{}", nv), t, "the whole message (2^nv field elements); sparse matrices concrete", format!("{} variables, default parameters: message length {} >= base length 30, one or more recursion levels", nv, 1usize << nv), move || c13::brakedown_encode_ref::<Brakedown>(&c2));
+                en.funcs = f.clone();
+                out.push(en);
+            }
+            {
+                let c = mkc(Size::mv(4, 1, 0), vec![PolySpec::new(1).conc()]);
+                let c2 = c.clone();
+                let mut en = e("brakedown-rec/encode-ref-nv4".into(), t, "the whole message (8 field elements); sparse matrices concrete", "hand-made parameters, base length 3, message length 8, one recursion level".into(), move || c13::brakedown_encode_ref::<BrakedownRec>(&c2));
+                en.funcs = f.clone();
+                out.push(en);
+                let c2 = c.clone();
+                let mut en = e("brakedown-rec/cols-nv4".into(), t, "point, challenges", "4 variables, hand-made parameters (base length 3)".into(), move || c13::cols_count::<BrakedownRec>(&c2, (1000 * 61, 1521 * 1000), 128));
+                en.funcs = f.clone();
+                if quick { en.lim.wall_s = 45.0; en.lim.max_runs = 20; }
+                out.push(en);
+                let m = 8usize;
+                let c2 = c.clone();
+                let mut en = e("brakedown-rec/encode-linear-nv4".into(), t, "scalars a, b and both messages x, y (sparse matrices concrete)", "4 variables, hand-made parameters (base length 3)".into(), move || c13::encode_linear::<BrakedownRec, MultilinearBrakedown<crate::engine::sf::SF, RoMT, ML, RoColHash>>(&c2, m));
+                en.funcs = f.clone();
+                out.push(en);
+            }
+            {
+                let nvs: Vec<usize> = if quick { vec![2, 5, 6, 8] } else { vec![2, 4, 5, 6, 7, 8, 10, 12] };
+                let mut en = e("brakedown/matrices".into(), t, "nothing (concrete: 3 RNG seeds per size)", format!("default parameters for {:?} variables", nvs), move || c13::brakedown_matrices(seed, &nvs));
+                en.funcs = vec!["BrakedownPCParams::{default,new,mat_size,cn,make_mat,make_all}", "SprsMat::new_from_columns"];
                 out.push(en);
             }
         }
